@@ -79,6 +79,53 @@ def problem2d(case, state_key="state"):
     return P
 
 
+def calm_field(P):
+    """a much slower problem on the same mesh and model: fluid at rest and 400x colder / shallower (wave speeds / 20), Burgers data / 20.  Its CFL time step
+    is ~20x that of the problem under test."""
+    name = P.smd["name"]
+    prim = [np.array(x, dtype=float, copy=True) for x in P.prim]
+    if name == "convection":
+        pass
+    elif name == "burgers":
+        prim = [prim[0] / 20.0]
+    elif name == "shallowwater":
+        prim = [prim[0] / 400.0, 0.0 * prim[1]]
+    else:
+        prim = [prim[0], 0.0 * prim[1], prim[2] / 400.0]
+    return cases.build_field(P.model, P.mesh, cases.cons_from_prim(P.smd, prim))
+
+
+def solver_history(case):
+    """what the solver object did BEFORE the computation under test - a pure function of the case (replayable): 0 nothing (half of the cases), 1 one
+    iteration with the per-cell time-step directive and another CFL number, 2 two iterations of a much slower problem (large time steps), 3 a short
+    computation with save times and a monitor"""
+    import zlib
+    from vf.runner import canonical
+    return [0, 0, 0, 1, 2, 3][zlib.crc32(canonical(case).encode()) % 6]
+
+
+def preuse_solver(P, solver, case, cfl, variant=None):
+    """Integrator objects are reused (parameter studies, continuation runs): give `solver` a past before it serves the computation under test.  solve() starts a
+    new computation, so on the unchanged tree none of this can matter.  Returns the variant applied (0 = fresh)."""
+    v = solver_history(case) if variant is None else variant
+    name = getattr(solver, "__class__").__name__
+    try:
+        if v == 1 and "gear" not in name:
+            solver.solve(P.field.copy(), 0.5 * cfl, stop={"maxit": 1}, directives={"dtlocal": True})
+        elif v == 2:
+            solver.solve(calm_field(P), cfl, stop={"maxit": 2})
+        elif v == 3:
+            f = P.field.copy()
+            dt = float(np.min(P.disc.calc_timestep(f, 0.7 * cfl)))
+            if np.isfinite(dt) and dt > 0:
+                solver.solve(f, 0.7 * cfl, [f.time + 0.4 * dt, f.time + 1.7 * dt], monitors={"residual": {"frequency": 1}})
+        else:
+            return 0
+    except (np.linalg.LinAlgError, FloatingPointError, ValueError, ZeroDivisionError):
+        return -1            # the preliminary computation itself failed (e.g. infinite local time step): the solver still has a past
+    return v
+
+
 def copy_data(f):
     return [np.array(d, dtype=float, copy=True) for d in f.data]
 
